@@ -302,7 +302,7 @@ TABLE_PROPS = {
  "C08": (["C08_"], []),
  "C10": (["C10_"], []),
  "C11": (["C11_"], []),
- "C12": (["C12_"], []),
+ "C12": (["C12_", "C07_noOpenOnBreak"], []),   # "when the level is a break no hand is opened"
  "C13": (["C13_"], []),
  "C14": (["C14_"], []),
  "C15": (["C15_"], []),
